@@ -1484,6 +1484,9 @@ def _unmatched_stmt_ids(fn, ref_fps):
     return out
 
 
+DUPLICATING = {"push-tail", "unhoist", "if-split", "and-else-out", "ifexp-callee-out", "expand-local", "ifexp-out"}
+
+
 def direct_function(fn, ref_fps: List[str], known_names: set, stored_attrs, normalise: Callable, budget: int = 400) -> int:
     """best-first search over the semantics-preserving rewrites. A state is better when MORE of its statements are spelled like
     the reference (fewer statements alone is not progress: the function would end in a third spelling nobody wrote). States
@@ -1522,12 +1525,19 @@ def direct_function(fn, ref_fps: List[str], known_names: set, stored_attrs, norm
     counter = 0
     heap = [((-m, u), 0, counter, cur)]
     best, best_m, best_u = cur, m, u
-    while heap and best_u > 0 and evals < budget:
+    tier = 1          # rewrites that duplicate statements (DUPLICATING) are only tried when the others are exhausted
+    while best_u > 0 and evals < budget:
+        if not heap:
+            if tier == 2:
+                break
+            tier = 2
+            seen = {score(best)[2]}
+            heap = [((-best_m, best_u), 0, counter, best)]
         (neg_m, u_), depth_, _, state = heapq.heappop(heap)
         hot = _unmatched_stmt_ids(state, ref_fps)
         near = _near_index(state, hot)
         cs_state = candidates_all(state, stored_attrs, ref_fps)
-        todo = [k for k, (_, _, anchor) in enumerate(cs_state) if anchor is None or near(anchor)]
+        todo = [k for k, (kind_, _, anchor) in enumerate(cs_state) if (anchor is None or near(anchor)) and (tier == 2 or kind_.rstrip("0123456789") not in DUPLICATING)]
         restarted = False
         for k in todo:
             kind, f0, anchor = cs_state[k]
@@ -1559,6 +1569,7 @@ def direct_function(fn, ref_fps: List[str], known_names: set, stored_attrs, norm
                 best, best_m, best_u = t, tm, tu
                 counter += 1
                 heap = [((-tm, tu), 0, counter, t)]      # restart from the improvement
+                tier = 1
                 restarted = True
                 break
             if depth_ < 3 and tm >= best_m - 1:
